@@ -252,7 +252,8 @@ func (w *writer) Run(ctx context.Context, log messageLog) error {
 		case <-ctx.Done():
 			return nil
 		case routedMessage := <-w.queue:
-			if routedMessage.offset != 0 {
+			// a log-offset job carries no message (0 is a valid offset: the first entry a node ever stores)
+			if routedMessage.publish == nil {
 				started := time.Now()
 				p, err := log.Get(routedMessage.offset)
 				if err != nil {
